@@ -530,8 +530,9 @@ shape = [5, 5], type = oper, isHerm = True
     else:
         i = np.arange(N)
         if method == 'operator':
-            beta = np.log(1.0 / n + 1.0)
-            diags = np.exp(-beta * i)
+            # Boltzmann factors exp(-beta * i) with beta = log(1/n + 1), written
+            # as powers of n / (1 + n): 1/n overflows for subnormal n.
+            diags = (n / (1.0 + n)) ** i
             diags = diags / np.sum(diags)
             # populates diagonal terms using truncated operator expression
 
